@@ -9,7 +9,7 @@ ALL = ["C%02d" % i for i in range(1, 21)]
 CLAIMS = {
     "C13": dict(
         category="model_checking", design_ref="DESIGN.md section 4, C13",
-        technique="TLA+ spec ControlPoints/ControlPointOps checked by TLC (complete reachable graph per kind + bounded combined sequences); one real-code test per TLC transition; trace validation of recorded random histories (Trace_ControlPoints); Apalache inductive-invariant check of strict sortedness for arbitrary integer times",
+        technique="TLA+ spec ControlPoints/ControlPointOps checked by TLC (complete reachable graph per kind + bounded combined sequences); one real-code test per TLC transition; trace validation of recorded random histories (Trace_ControlPoints; time pools contain ulp-neighbours, points are struct literals incl. out-of-range values); Apalache inductive-invariant check of strict sortedness for arbitrary integer times",
         text="TLC checks ordering, one-point-per-time, redundancy (as an action property) and lookup semantics on the complete reachable state graph of add operations over the property's alphabet; every transition of that graph is replayed through the real ControlPoints::add and *_point_at and compared state-for-state, and random long histories with fractional/negative times recorded from the real API are validated against the same spec.",
         note="Trusted: TLC, the harness projection (cp.rs, ~100 lines), times finite and not -0.0; values on a 1/1000 lattice."),
 }
@@ -35,7 +35,7 @@ CLAIMS["C14"] = dict(
     category="model_checking", design_ref="DESIGN.md section 4, C14",
     technique="TLA+ specs HitObjectLine + PathString + Samples (abstract hit-object lines, path tokens, bank infos) with structural invariants checked by TLC; every TLC-generated line sequence replayed line by line into the real parse_hit_objects on its public state; trace validation of long random line sequences (Trace_HitObjectLine); tlc -simulate long behaviours replayed",
     text="The legacy grammar is transcribed as operators over abstract lines (type/sound bits, coordinate truncation and limits, repeat/length/duration rules, node lists, bank infos, the path-token decoder with its implicit-segment rules); TLC enumerates every type byte, every sound byte, combo sequences, numeric and rejection classes, bank-info shapes and every path token string up to the bound, checks the structural invariants of the decoded objects, and the real parser is compared with the predicted object after every line under two spellings.",
-    note="Trusted: TLC, the spelling table and projection in harness/src/hitobj.rs; values are integers (fraction class only for truncation); paths are spelled around four named points.")
+    note="Trusted: TLC, the spelling table and projection in harness/src/hitobj.rs; values are integers (fraction class only for truncation); paths are spelled around four named points plus two far-away points exactly collinear with the object (products beyond 2^24).")
 CLAIMS["C06"] = dict(
     category="model_checking", design_ref="DESIGN.md section 4, C06",
     technique="TLA+ spec HitObjectLine (Accept/Reject actions with the scratch state a line can pass on) and TimingLines (Reject = stutter): invariant 'result = fold of accepted lines' checked by TLC; replay of every generated sequence line by line plus the model-free relation decode(file) == decode(file minus rejected lines); a Neg config keeps the pinned (leaking) behaviour as a violated model; long random sequences with frequent rejections: state and decode result with vs. without the rejected lines",
@@ -44,14 +44,14 @@ CLAIMS["C06"] = dict(
 
 CLAIMS["C20"] = dict(
     category="model_checking", design_ref="DESIGN.md section 4, C20",
-    technique="TLA+ spec SliderEvents (iterator state machine over a shared tick buffer, New from any state) refined to the declarative event stream, checked by TLC over a parameter grid; every behaviour replayed through the real SliderEventsIter; trace validation (Trace_SliderEvents) of random lattice parameters with random abandon points",
+    technique="TLA+ spec SliderEvents (iterator state machine over a shared tick buffer, New from any state) refined to the declarative event stream, checked by TLC over a parameter grid; every behaviour replayed through the real SliderEventsIter; trace validation (Trace_SliderEvents) of random lattice parameters with random abandon points; the specification's declarative stream evaluated in f64 on seeded random real-valued parameters (tolerant at the exact 10 ms cut-off)",
     text="TLC checks on every parameter set of the grid and every abandon/restart history on one buffer that the iterator's output is exactly the declarative stream (head; per span chronological ticks then a repeat; legacy last tick; tail), with chronological order, tick placement facts and the size_hint lower bound; the real iterator is driven through the same histories and compared event by event, and call-by-call recordings on random lattice parameters must be explained by the composed iterator actions.",
-    note="Trusted: TLC, the unit conversion in harness/src/events.rs. Parameters on a dyadic 1/8 lattice with integer velocities so that float and rational arithmetic take the same branches; off-lattice real parameters are not claimed.")
+    note="Trusted: TLC, the unit conversion in harness/src/events.rs. Parameters on a dyadic 1/8 lattice with integer velocities so that float and rational arithmetic take the same branches; off the lattice the declarative stream is re-evaluated in f64 and a tick within 1e-9 x length of the cut-off may be present or absent; velocity > 0.")
 CLAIMS["C16"] = dict(
     category="model_checking", design_ref="DESIGN.md section 4, C16",
-    technique="TLA+ spec CurveLength (calculate_path for vertex-exact segments + calculate_length branch by branch) with the length contract as invariants, checked by TLC over all lattice polylines up to a bound; every case replayed through Curve::new / BorrowedCurve::new / SliderPath::curve in four modes",
+    technique="TLA+ spec CurveLength (calculate_path for vertex-exact segments + calculate_length branch by branch) with the length contract as invariants, checked by TLC over all lattice polylines up to a bound; every case replayed through Curve::new / BorrowedCurve::new / SliderPath::curve in four modes; the contract's clauses evaluated on the real natural polylines of seeded random control-point lists with Bezier / b-spline / perfect-curve / Catmull segments",
     text="On the sub-domain where the model is exact (Linear and two-point Bezier segments with integer segment lengths) TLC checks for every polyline, typing and requested length that the total distance is exactly L except for the two documented exceptions, that the adjusted curve is the natural one cut or extended along its last segment, and that cumulative lengths start at 0 and never decrease; the real code is compared with the predicted path and lengths on every case.",
-    note="Sub-domain claim: Bezier with >= 3 control points, perfect-curve and Catmull segments (and so the Catmull simplification clause and the 1e-5 rounding clause) are out of reach of a TLA+ model and are NOT covered. Coordinates compared within 1e-3 + 1e-6|c|.")
+    note="The MODEL is exact on straight segments only; for curved segments the natural polyline is taken from the code and the contract clauses (start at 0, finite, monotone within 1e-5, exact distance with its two exceptions, prefix-plus-end-point geometry, own polyline length, osu! Catmull simplification keeps the length within 1e-5 relative) are evaluated on it for random inputs - not exhaustive. Coordinates compared within 1e-3 + 1e-6|c|.")
 CLAIMS["C19"] = dict(
     category="model_checking", design_ref="DESIGN.md section 4, C19",
     technique="TLA+ operator CurveLength!PosSeg (clamp, distance, segment index, interpolation weight) with clamping/end-point invariants checked by TLC on every lattice curve; replay through position_at, progress_to_dist, idx_of_dist, interpolate_vertices and the BorrowedCurve twins, plus vertex-fraction and arc-length relations on the real values",
@@ -66,7 +66,7 @@ CLAIMS["C18"] = dict(
 CLAIMS["C08"] = dict(
     category="model_checking", design_ref="DESIGN.md section 4, C08",
     technique="TLA+ spec Reader (BufRead as environment: chunk schedule, Interrupted; decoder: BOM sniffing + line splitting as actions) with invariant ScheduleIndependent checked by TLC on every short file x every schedule; replay through a scheduled BufRead and a recording DecodeBeatmap implementor; the same relation evaluated on bundled/random files under many delivery schedules",
-    text="TLC proves on the model that for every short byte string and every way a BufRead may cut it into chunks (down to single bytes, a first chunk shorter than a BOM) and interleave Interrupted results, the decoder yields the same encoding and lines; the real decoder is replayed on each file under the model's witness schedule and seeded others and must equal its own single-chunk result, and on bundled and random files in four encodings all of: fixed chunk sizes, random schedules with interruptions, BufReader capacities 1..16, from_str and from_path must equal from_bytes.",
+    text="TLC proves on the model that for every short byte string and every way a BufRead may cut it into chunks (down to single bytes, a first chunk shorter than a BOM) and interleave Interrupted results, the decoder yields the same encoding and lines (files: every BOM-ish prefix, with and without an empty first line, x header x payload; BOM-region byte strings; UTF-16 code-unit strings whose 0A/00 bytes meet across units); the real decoder is replayed on each file under the model's witness schedule and seeded others and must equal its own single-chunk result, and on bundled and random files in four encodings all of: fixed chunk sizes, random schedules with interruptions, BufReader capacities 1..16, from_str and from_path must equal from_bytes.",
     note="Trusted: TLC, harness ScheduledReader (BufRead contract), Beatmap's PartialEq plus expected_dist comparison.")
 CLAIMS["C09"] = dict(
     category="fault_enumeration", design_ref="DESIGN.md section 4, C09",
@@ -105,8 +105,8 @@ CLAIMS["C03"] = dict(
 CLAIMS["C15"] = dict(
     category="model_checking", design_ref="DESIGN.md section 4, C15",
     technique="TLA+ spec MapPost (TimingLines decoder composed with stable sort, break sweep, slider velocity/duration and sample-point defaults at end+5 ms / node+5 ms) with invariants SortedStable, ComboAfterBreak, ClosedForms and ShiftInvariant checked by TLC over all small maps; replay through HitObjects and Beatmap (a sample also shifted); text-level shift relation on bundled and generated files; SortedStable evaluated on generated files with 25-95 objects, few distinct times (incl. signed zero), shuffled order",
-    text="TLC enumerates every map of up to two objects (four kinds, equal and boundary start times, flags, sample shapes) x five timing sections x five break lists x multipliers x modes and checks that objects come out in stable time order, that the first object after a break starts a combo, the closed forms of velocity and duration, and that processing commutes with shifting all times by +-1, -7 and +-10^6 ms; the real decoders are compared with the predicted objects (combo flags, velocity, duration, object and node sample bank/volume/custom index) on every case, and on real files with whole-millisecond times a text-level shift by seven different offsets must change nothing but the times.",
-    note="Exactness rule: dyadic velocities and durations so that the `+5 ms` lookups are decided exactly; breaks in chronological file order; at most 2 objects per enumerated map.")
+    text="TLC enumerates every map of up to two objects (four kinds, equal and boundary start times, flags, sample shapes) x seven timing sections (velocity multipliers inside and beyond their clamp) x five break lists x multipliers x modes, and in a second `wide` profile every map of exactly three objects (incl. three-span sliders, hit-sound additions, file samples, custom indices 1/2/4) in all four modes, and checks that objects come out in stable time order, that the first object after a break starts a combo, the closed forms of velocity and duration, and that processing commutes with shifting all times by +-1, -7 and +-10^6 ms; the real decoders are compared with the predicted objects (combo flags, velocity, duration, and for every sample of the object and of each slider node: name, bank, bank-specified, volume, custom index, suffix, layering) on every case, and on real files with whole-millisecond times a text-level shift by seven different offsets must change nothing but the times.",
+    note="Exactness rule: dyadic velocities and durations so that the `+5 ms` lookups are decided exactly; breaks in chronological file order; at most 3 objects per enumerated map.")
 
 CLAIMS["C01"] = dict(
     category="exploration", design_ref="DESIGN.md section 4, C01",
